@@ -17,7 +17,8 @@ EXTENDS Naturals, Sequences, FiniteSets, TLC
 CONSTANTS MaxCmds,     \* commands per history
           Docs,        \* subset of {"d1","d2","dWarn","dBad","dJunk"}
           HookKinds,   \* subset of {"ok","missing","fail"}
-          Touches      \* user paths the user may create between commands
+          Touches,     \* user paths the user may create between commands
+          MaxTouches   \* bound on user edits per history (only to keep emitted histories replayable; 99 = unbounded)
 
 \* ---- documents
 Rejected(d)  == d \in {"dBad", "dJunk"}            \* dJunk: unparseable bytes (load); dBad: not an OpenAPI document (validate)
@@ -29,7 +30,7 @@ TagsOf(d)    == CASE d = "d1" -> {"t1"} [] d = "d2" -> {"t2"} [] d = "dWarn" -> 
 ModelPaths == {"models/m1", "models/m2"}
 ApiPaths   == {"api/t1", "api/t2"}
 Owned      == {"pkg", "meta", "models/init", "api/init", "client"} \cup ModelPaths \cup ApiPaths
-UserPaths  == {"u_top", "u_pkg", "u_models", "u_api", "sib"}
+UserPaths  == {"u_top", "u_flav", "u_pkg", "u_models", "u_api", "sib"}   \* u_flav: a user file named like ANOTHER flavour's metadata file
 Paths      == Owned \cup UserPaths
 Absent     == <<"absent", "", "">>
 User       == <<"user", "", "">>
@@ -63,7 +64,8 @@ Start(c) == /\ pc = "idle" /\ n < MaxCmds /\ cmd' = c /\ pc' = "load" /\ fs0' = 
             /\ UNCHANGED <<fs, outdir, code>>
 
 \* the user creates a file (only while no command runs).  A user file inside models/ or api/ is inside a generator-owned subtree.
-UserTouch(p) == /\ pc = "idle" /\ n < MaxCmds /\ p \in Touches /\ (p = "sib" \/ outdir) /\ fs[p] = Absent
+NTouches == Cardinality({k \in 1..Len(hist) : hist[k].ev = "touch"})
+UserTouch(p) == /\ pc = "idle" /\ n < MaxCmds /\ p \in Touches /\ (MaxTouches >= 99 \/ NTouches < MaxTouches) /\ (p = "sib" \/ outdir) /\ fs[p] = Absent
                 /\ (p = "u_models" => fs["models/init"] # Absent) /\ (p = "u_api" => fs["api/init"] # Absent)
                 /\ fs' = [fs EXCEPT ![p] = User] /\ hist' = Append(hist, [ev |-> "touch", p |-> p])
                 /\ UNCHANGED <<outdir, cmd, pc, fs0, out0, diag, code, n>>
@@ -111,7 +113,7 @@ NoClobber == (pc = "exit" /\ out0 /\ ~cmd.ow /\ ~Rejected(cmd.doc)) => (fs = fs0
 NoClobberStep == [][(Running /\ out0 /\ ~cmd.ow) => fs' = fs]_vars
 \* F3: a generating command leaves exactly a fresh generation of its document plus the untouched user files
 Converges == Generated => /\ \A p \in Owned : Same(fs[p], Fresh(cmd.doc)[p])
-                          /\ \A p \in {"u_top", "u_pkg", "sib"} : fs[p] = fs0[p]
+                          /\ \A p \in {"u_top", "u_flav", "u_pkg", "sib"} : fs[p] = fs0[p]
 NoStale == Generated => \A p \in ModelPaths \cup ApiPaths : fs[p] # Absent => fs[p][2] = cmd.doc
 \* F4: exit status <=> diagnostics; a rejected document writes nothing (not even the directory)
 ExitLaw == pc = "exit" => ((diag.err \/ (cmd.fow /\ diag.warn)) <=> (Rejected(cmd.doc) \/ (out0 /\ ~cmd.ow) \/ cmd.hk = "fail"
